@@ -119,7 +119,7 @@ def direct_chunk(args):
                     exp = '(ok' + ''.join(' (s %s)' % cps_of(l) if len(l) else ' (s)' for l in lines) + ')'
                     if len(lines) > 1:
                         nt += 1
-                except Exception as e:
+                except (Exception, common.ImplTimeout) as e:
                     lines = None
                     exp = '(error %s)' % type(e).__name__
                 g = drv.ask('(strlines %d 0 %d %d (%s))' % (isb, ml, ord(q), chars))
@@ -202,7 +202,7 @@ def eval_chunk(args):
         try:
             with common.time_limit():
                 sdoc = P.pretty_str(val, ctx)
-        except Exception as e:
+        except (Exception, common.ImplTimeout) as e:
             mism.append({'s': repr(s), 'error': 'pretty_str raised %s' % type(e).__name__})
             continue
         pydoc = D.nest(nest_k, D.concat([prefix, sdoc]))
